@@ -186,8 +186,15 @@ func shortExpr(v ssa.Value) string {
 		}
 	case *ssa.FreeVar:
 		return x.Name()
+	case *ssa.MakeSlice:
+		return "make(" + types.TypeString(x.Type(), func(p *types.Package) string { return p.Name() }) + ")"
+	case *ssa.MakeInterface:
+		return shortExpr(x.X)
+	case *ssa.ChangeInterface:
+		return shortExpr(x.X)
 	}
-	return v.Name()
+	// stable fallback: never the SSA register name (it changes with unrelated edits)
+	return fmt.Sprintf("%T:%s", v, types.TypeString(v.Type(), func(p *types.Package) string { return p.Name() }))
 }
 
 // ---------- value lookup ----------
